@@ -302,3 +302,22 @@ def toArgDict(a: "AttrList") -> "ArgDict":
 def classToks(a: "AttrList") -> "StrList":
     "the whitespace tokens of the class attribute"
     return splitWs(classText(a))
+
+
+@spec
+def attrsOf(t: "Node") -> "AttrList":
+    match t:
+        case El(n, ws, a, kids):
+            return a
+        case _:
+            return ANil()
+
+
+@spec
+def withAttrs(t: "Node", a2: "AttrList") -> "Node":
+    "the same tag with its attribute map replaced"
+    match t:
+        case El(n, ws, a, kids):
+            return El(n, ws, a2, kids)
+        case _:
+            return t
